@@ -157,6 +157,9 @@ class ClosureV:
         self.loc = loc
         self.caps = caps    # Struct of captured values
 
+    def mir_field(self, eng, idx, ty):
+        return self.caps.f[idx]
+
 class Opaque:
     """value of a type the executor knows nothing about (only passed around)"""
     __slots__ = ('ty', 'name')
@@ -304,3 +307,61 @@ def to_z3_bool(x):
 
 def is_fp(x):
     return isinstance(x, z3.FPRef)
+
+
+class SeqPtr:
+    """typed raw pointer into a sequence (element granular): models `*mut T` obtained from a vector's buffer"""
+    __slots__ = ('seq', 'idx', 'ty')
+
+    def __init__(self, seq, idx, ty=None):
+        self.seq = seq
+        self.idx = idx
+        self.ty = ty
+
+    def offset(self, eng, n):
+        return SeqPtr(self.seq, z3.simplify(self.idx + n), self.ty)
+
+    def deref_cell(self, eng):
+        cap = self.seq.len
+        ok = eng.fork_bool(z3.ULT(self.idx, cap))
+        if not ok:
+            raise PathEnd('oob', ('pointer dereference outside its allocation', str(self.idx)))
+        eng.note_access(self)
+        return eng.seq_cell(self.seq, self.idx)
+
+    def ptr_binop(self, eng, op, a, b):
+        if isinstance(a, SeqPtr) and isinstance(b, SeqPtr):
+            if a.seq is not b.seq:
+                if op == 'Eq':
+                    return False
+                if op == 'Ne':
+                    return True
+                raise Unsupported('ordering of pointers into different allocations')
+            return eng.binop(op, a.idx, b.idx, 'isize')
+        if op == 'Offset':
+            return a.offset(eng, b)
+        raise Unsupported(f'pointer binop {op}')
+
+    def copy_value(self, eng):
+        return self
+
+    def bind_elem(self, eng, backing):
+        eng.add_constraint(backing.child('idx').leaf(eng, z3.BitVecSort(64)) == self.idx)
+
+    def __repr__(self):
+        return f'ptr[{self.idx}]'
+
+
+class NullPtr:
+    def ptr_binop(self, eng, op, a, b):
+        if op == 'Eq':
+            return isinstance(a, NullPtr) and isinstance(b, NullPtr)
+        if op == 'Ne':
+            return not (isinstance(a, NullPtr) and isinstance(b, NullPtr))
+        raise Unsupported('null pointer arithmetic')
+
+    def deref_cell(self, eng):
+        raise PathEnd('oob', 'null pointer dereference')
+
+    def __repr__(self):
+        return 'null'
